@@ -94,12 +94,19 @@ def run(tier):
             if ntt != m["ntt"]:
                 why = f"{ntt} traveltime arrays exported for {m['ntt']} grids"
             vel = np.asarray(t["grid"], dtype=float)
+            # the solver objects handed to grid_to_meshio, in argument order: the model itself
+            # (unless order == tt_only) and, with extra_model, a second solver holding 2 x the model
+            scales = ([1.0] if t["order"] != "tt_only" else []) + ([2.0] if t["extra_model"] else [])
+            expected_names = {("Velocity" if k == 0 else f"Velocity {k + 1}"): sc for k, sc in enumerate(scales)}
             for name, arrs in o["cell_data"].items():
                 nvel += 1
-                scale = 2.0 if name.endswith("2") else 1.0
+                if name not in expected_names:
+                    why = f"unexpected cell data '{name}' (expected {sorted(expected_names)})"
+                    continue
+                scale = expected_names[name]
                 if len(arrs) != 1 or not np.array_equal(arrs[0], scale * vel[tuple(ccell.T)]):
                     why = f"cell data '{name}' is not the velocity of the model cell the cell connects"
-            exp_nvel = (1 if t["order"] != "tt_only" else 0) + (1 if t["extra_model"] else 0)
+            exp_nvel = len(scales)
             if nvel != exp_nvel:
                 why = f"{nvel} velocity arrays for {exp_nvel} models"
             # geometric check independent of numbering: each cell's vertices are the 2^d corners of one model cell
